@@ -293,6 +293,10 @@ func (d *interfaceDecoder) decodeStreamEmptyInterface(s *Stream, depth int64, p 
 						continue
 					}
 					return errors.ErrUnexpectedEndOfJSON("string", s.totalOffset())
+				default:
+					if c := s.char(); c < 0x20 {
+						return errors.ErrControlCharInString(c, s.totalOffset())
+					}
 				}
 				s.cursor++
 			}
